@@ -167,7 +167,7 @@ void ApiRun::verify_roundtrip(int ci, int version, const Op &o) {
     bool null_opts = r.chance(1, 4) && version != 1;
     int ferr = 0;
     // each attempt (there is more than one only under allocation-failure enumeration) writes to a freshly opened stream
-    int rc = api("cif_write", [&]() { FILE *f = out.open(); int q = cif_write(f, null_opts ? NULL : wo, c.cif); fflush(f); ferr = ferror(f); fclose(f); return q; });
+    int rc = api("cif_write", [&]() { FILE *f = out.open(); int q = cif_write(f, null_opts ? NULL : wo, c.cif); fflush(f); ferr = ferror(f); fclose(f); return q; }, A_REPEATABLE);
     lib_free(wo);
     cover(O_Checkpoint, rc, (uint64_t) version * 16 + (causes.composite ? 1 : 0) + (causes.nl_semi ? 2 : 0) + (causes.non11 ? 4 : 0) + (wfault ? 8 : 0));
     ev("cif_write(v%d) -> %s, %zu bytes, ferror=%d", version, rc_name(rc), out.data.size(), ferr);
@@ -220,7 +220,7 @@ void ApiRun::verify_roundtrip(int ci, int version, const Op &o) {
     if (version == 1) { po->prefer_cif2 = -1; po->line_folding_modifier = 1; po->text_prefixing_modifier = 1; }
     cif_tp *fresh = NULL;
     fclose(fi);
-    int rc2 = api("cif_parse", [&]() { if (fresh) { int q = cif_destroy(fresh); (void) q; fresh = NULL; } er = ErrRec(); FILE *fj = in.open(); int q = cif_parse(fj, po, &fresh); fclose(fj); return q; });
+    int rc2 = api("cif_parse", [&]() { if (fresh) { int q = cif_destroy(fresh); (void) q; fresh = NULL; } er = ErrRec(); FILE *fj = in.open(); int q = cif_parse(fj, po, &fresh); fclose(fj); return q; }, A_REPEATABLE);
     lib_free(po);
     std::unique_ptr<Violation> bad;
     try {
